@@ -4868,8 +4868,15 @@ def type_script_repr(type_,imports,prefix,settings):
         imports.append('import %s'%module)
     return module+'.'+type_.__name__
 
+def float_script_repr(value,imports,prefix,settings):
+    # repr() of inf and nan ('inf', 'nan') is not an expression that evaluates to them
+    if value != value or value in (float('inf'), float('-inf')):
+        return "float('%r')" % value
+    return repr(value)
+
 script_repr_reg[list] = container_script_repr
 script_repr_reg[tuple] = container_script_repr
+script_repr_reg[float] = float_script_repr
 script_repr_reg[FunctionType] = function_script_repr
 
 
